@@ -45,3 +45,20 @@ Proof.
   intros l1 l2 window i j Hw H1 H2 Hi. cbv zeta. intros Hj.
   apply (c_row_accesses_in_buffer _ _ _ _ c_band_dtw_distance l1 l2 window i j); assumption.
 Qed.
+
+(* The compact warping-paths layout (dtw_wps_parts, dtw_wps_shift regenerated from dd_dtw.c): the slot of every band
+   cell -- and of its left neighbour -- lies inside its row of width `width`, for every length and window; consecutive
+   rows are shifted by 0 or 1; rows above the left overlap are not shifted. *)
+From DV Require Import CWps.
+
+Theorem C08_compact_slot_in_row : forall l1 l2 window0 ri j,
+  (1 <= l1 -> 1 <= l2 -> 0 <= window0 -> 0 <= ri < l1 ->
+   Dtw.band_lo l1 l2 (cw_window l1 l2 window0) ri <= j < Dtw.band_hi l1 l2 (cw_window l1 l2 window0) ri ->
+   0 <= j - cw_shift l1 l2 window0 ri /\ j + 1 - cw_shift l1 l2 window0 ri < cw_width l1 l2 window0)%Z.
+Proof. exact compact_slot_in_row. Qed.
+
+Theorem C08_compact_shift_steps : forall l1 l2 window0 ri,
+  (1 <= l1 -> 1 <= l2 -> 0 <= window0 -> 0 <= ri -> ri + 1 < l1 ->
+   cw_shift l1 l2 window0 (ri + 1) = cw_shift l1 l2 window0 ri \/
+   cw_shift l1 l2 window0 (ri + 1) = cw_shift l1 l2 window0 ri + 1)%Z.
+Proof. exact compact_shift_steps. Qed.
